@@ -485,7 +485,8 @@ func main() {
 					emit(a, follower(a))
 				}
 				// Conn.ReadMessage and Conn.Read: one record, then the batch is closed by the library itself
-				for _, via := range []string{"ReadMessage", "Read"} {
+				// "ReadSmall": Conn.Read into a buffer shorter than the value — io.ErrShortBuffer, Conn kept and aligned
+				for _, via := range []string{"ReadMessage", "Read", "ReadSmall"} {
 					a := buildFetch(r, v, l.magic, l.n, l.batches, codec, 1)
 					a.sh.Via = via
 					emit(a, follower(a))
